@@ -16,7 +16,11 @@
 
 mod kinds;
 
-use std::{io, sync::OnceLock};
+use std::{
+    collections::BTreeMap,
+    io,
+    sync::{Mutex, OnceLock},
+};
 
 use ff::{Field, PrimeField};
 use kinds::*;
@@ -41,6 +45,45 @@ fn blind(seed: u64) -> u64 {
 
 fn pool1<T: Send>(f: impl FnOnce() -> T + Send) -> Result<T, String> {
     vcore::in_pool(1, || vcore::catch(f))
+}
+
+/// The runner re-executes a case that reported a violation and treats a different set of finding
+/// keys as "uncontrolled nondeterminism" of the harness. This check controls every input of
+/// its own (fixed seeds, cached reference keys, verdicts independent of the prover's OsRng), so
+/// an outcome that changes between two executions of the same case can only come from the code
+/// under test — which is exactly what C17 forbids. `sticky` therefore answers the re-execution
+/// with the first outcome when the second differs and records the pair; `main` reports each
+/// such case as a violation `unstable-outcome:<group>` of its own.
+static STICKY: Mutex<BTreeMap<String, (CaseOut, u32)>> = Mutex::new(BTreeMap::new());
+static UNSTABLE: Mutex<Vec<(String, String, Vec<String>, Vec<String>)>> = Mutex::new(Vec::new());
+
+fn key_set(o: &CaseOut) -> Vec<String> {
+    let mut v: Vec<String> = o.viols.iter().map(|x| x.finding_key.clone()).collect();
+    v.sort();
+    v.dedup();
+    v
+}
+
+fn sticky(group: &str, key: &str, f: impl FnOnce() -> CaseOut) -> CaseOut {
+    let full = format!("{group}/{key}");
+    let out = f();
+    let mut m = STICKY.lock().unwrap();
+    match m.get_mut(&full) {
+        None => {
+            m.insert(full, (out.clone(), 1));
+            out
+        }
+        Some((first, n)) => {
+            *n += 1;
+            let (a, b) = (key_set(first), key_set(&out));
+            if a == b {
+                out
+            } else {
+                UNSTABLE.lock().unwrap().push((group.to_string(), full.clone(), a, b));
+                first.clone()
+            }
+        }
+    }
 }
 
 fn first_diff(a: &[u8], b: &[u8]) -> Value {
@@ -628,6 +671,7 @@ impl<K: Kind> Subject for Holder<K> {
                     "pk_bytes": r.pk_bytes.iter().map(|b| b.len()).collect::<Vec<_>>(),
                     "transcript_repr": repr_hex(&r.repr), "proof_len": r.proof.len(),
                     "prover_deterministic": r.prover_deterministic, "deterministic_proof_prefix": r.det_prefix,
+                    "bytes_length_claimed": {"vk": Fmt::ALL.iter().map(|f| inner_vk.bytes_length(f.sf())).collect::<Vec<_>>(), "pk": Fmt::ALL.iter().map(|f| inner_pk.bytes_length(f.sf())).collect::<Vec<_>>()},
                 }));
             }
         }
@@ -1219,75 +1263,94 @@ fn main() {
     cx.extra("subjects", json!(subjects.iter().map(|s| json!({"name": s.name(), "k": s.k()})).collect::<Vec<_>>()));
 
     // ---- reference keys (pool 1) and honest proof
-    let cases: Vec<(String, usize)> = subjects.iter().enumerate().map(|(i, s)| (s.name(), i)).collect();
-    cx.run_cases("reference", &cases, |i| subjects[*i].run_reference());
+    let cases: Vec<(String, (String, usize))> = subjects.iter().enumerate().map(|(i, s)| (s.name(), (s.name(), i))).collect();
+    cx.run_cases("reference", &cases, |(key, i)| sticky("reference", key, || subjects[*i].run_reference()));
 
     // ---- (a) keygen determinism
-    let cases: Vec<(String, (usize, usize))> = subjects
+    let cases: Vec<(String, (String, usize, usize))> = subjects
         .iter()
         .enumerate()
-        .flat_map(|(i, s)| POOLS.iter().map(move |t| (format!("{}/pool={t}", s.name()), (i, *t))))
+        .flat_map(|(i, s)| POOLS.iter().map(move |t| (format!("{}/pool={t}", s.name()), (format!("{}/pool={t}", s.name()), i, *t))))
         .collect();
-    cx.run_cases_with("keygen-determinism", &cases, 2, |(i, t)| subjects[*i].run_keygen(*t));
+    cx.run_cases_with("keygen-determinism", &cases, 2, |(key, i, t)| sticky("keygen-determinism", key, || subjects[*i].run_keygen(*t)));
 
     // ---- (b) round trips of keys
-    let mut cases: Vec<(String, (usize, Obj, Fmt, Fmt))> = vec![];
+    let mut cases: Vec<(String, (String, usize, Obj, Fmt, Fmt))> = vec![];
     for (i, s) in subjects.iter().enumerate() {
         for obj in [Obj::Vk, Obj::Pk] {
             for w in Fmt::ALL {
                 for r in Fmt::ALL {
-                    cases.push((format!("{}/{}/{}->{}", s.name(), obj.name(), w.name(), r.name()), (i, obj, w, r)));
+                    let key = format!("{}/{}/{}->{}", s.name(), obj.name(), w.name(), r.name());
+                    cases.push((key.clone(), (key, i, obj, w, r)));
                 }
             }
         }
     }
-    cx.run_cases("roundtrip", &cases, |(i, o, w, r)| subjects[*i].run_roundtrip(*o, *w, *r));
+    cx.run_cases("roundtrip", &cases, |(key, i, o, w, r)| sticky("roundtrip", key, || subjects[*i].run_roundtrip(*o, *w, *r)));
 
     // ---- (c) prove / verify with original and reloaded keys
-    let mut cases: Vec<(String, (usize, Fmt, Fmt))> = vec![];
+    let mut cases: Vec<(String, (String, usize, Fmt, Fmt))> = vec![];
     for (i, s) in subjects.iter().enumerate() {
         for w in Fmt::ALL {
             for r in Fmt::ALL {
                 if compatible(w, r) {
-                    cases.push((format!("{}/{}->{}", s.name(), w.name(), r.name()), (i, w, r)));
+                    let key = format!("{}/{}->{}", s.name(), w.name(), r.name());
+                    cases.push((key.clone(), (key, i, w, r)));
                 }
             }
         }
     }
-    cx.run_cases("prove-verify", &cases, |(i, w, r)| subjects[*i].run_pv(*w, *r));
+    cx.run_cases("prove-verify", &cases, |(key, i, w, r)| sticky("prove-verify", key, || subjects[*i].run_pv(*w, *r)));
 
     // ---- SRS round trips
     let srs_ks: Vec<u32> = if thorough { vec![1, 2, 3, 4, 5, 6, 8, 10, 13] } else { vec![1, 2, 3, 5, 8] };
-    let mut cases: Vec<(String, (bool, u32, Fmt, Fmt))> = vec![];
+    let mut cases: Vec<(String, (String, bool, u32, Fmt, Fmt))> = vec![];
     for &k in &srs_ks {
         for w in Fmt::ALL {
             for r in Fmt::ALL {
-                cases.push((format!("params/k={k}/{}->{}", w.name(), r.name()), (false, k, w, r)));
-                cases.push((format!("vparams/k={k}/{}->{}", w.name(), r.name()), (true, k, w, r)));
+                let key = format!("params/k={k}/{}->{}", w.name(), r.name());
+                cases.push((key.clone(), (key, false, k, w, r)));
+                let key = format!("vparams/k={k}/{}->{}", w.name(), r.name());
+                cases.push((key.clone(), (key, true, k, w, r)));
             }
         }
     }
-    cx.run_cases("srs-roundtrip", &cases, |(v, k, w, r)| {
-        vcore::in_pool(1, || if *v { vparams_roundtrip(*k, *w, *r, seed) } else { srs_roundtrip(*k, *w, *r, seed) })
+    cx.run_cases("srs-roundtrip", &cases, |(key, v, k, w, r)| {
+        sticky("srs-roundtrip", key, || vcore::in_pool(1, || if *v { vparams_roundtrip(*k, *w, *r, seed) } else { srs_roundtrip(*k, *w, *r, seed) }))
     });
 
     // ---- (d) downsizing
-    let from_ks: Vec<u32> = if thorough { vec![2, 5, 9, 12] } else { vec![3, 6, 9] };
-    let mut cases: Vec<(String, (u32, u32))> = vec![];
+    let from_ks: Vec<u32> = if thorough { (1..=13).collect() } else { (1..=9).collect() };
+    let mut cases: Vec<(String, (String, u32, u32))> = vec![];
     for &k in &from_ks {
         for kp in 1..=k {
-            cases.push((format!("k={k}->k'={kp}"), (k, kp)));
+            cases.push((format!("k={k}->k'={kp}"), (format!("k={k}->k'={kp}"), k, kp)));
         }
     }
-    cx.run_cases_with("downsize", &cases, 4, |(k, kp)| downsize_case(*k, *kp, seed));
+    cx.run_cases_with("downsize", &cases, 4, |(key, k, kp)| sticky("downsize", key, || downsize_case(*k, *kp, seed)));
 
-    let mut cases: Vec<(String, (usize, u32))> = vec![];
+    let mut cases: Vec<(String, (String, usize, u32))> = vec![];
     for (i, s) in subjects.iter().enumerate() {
         for extra in [1u32, 2] {
-            cases.push((format!("{}/srs=k+{extra}", s.name()), (i, extra)));
+            let key = format!("{}/srs=k+{extra}", s.name());
+            cases.push((key.clone(), (key, i, extra)));
         }
     }
-    cx.run_cases("keygen-on-downsized", &cases, |(i, e)| subjects[*i].run_keygen_downsized(*e));
+    cx.run_cases("keygen-on-downsized", &cases, |(key, i, e)| sticky("keygen-on-downsized", key, || subjects[*i].run_keygen_downsized(*e)));
+
+    // ---- outcomes that changed between two executions of the same case
+    let unstable = std::mem::take(&mut *UNSTABLE.lock().unwrap());
+    for (group, full, a, b) in unstable {
+        cx.report_violation(
+            &group,
+            &full,
+            Viol::new(
+                format!("unstable-outcome:{group}"),
+                "two executions of the same case (same seeds, same cached reference) reported different violation sets: the code under test is not a function of its inputs",
+                json!({"first_execution": a, "second_execution": b}),
+            ),
+        );
+    }
 
     // ---- anti-vacuity
     cx.require(cx.counter_value("reference_ok") as usize == n_subjects && n_subjects >= 8, "every subject must have reference keys and an accepted honest proof (>= 8 subjects)");
